@@ -924,6 +924,80 @@ def r6_lattice_executed(ctx, sym):
                   "a = []; b = 'ab'; a in b - CPython raises TypeError, TIFA reports nothing")
 
 
+def r7_type_names_total(ctx, sym):
+    ctx.rule('R7', "reporting incompatible types needs the operand types' names: singular_name and plural_name of "
+                   "pedal's own types, executed abstractly on instances of every core kind - empty containers and the "
+                   "empty tuple included - never raise (a failure there ends the analysis without the report CPython's "
+                   "TypeError calls for)")
+    from .. import symexec, fdeval as _fdeval
+    from ..fdeval import Obj, Raised, Inconclusive
+    tmod = ctx.repo.module(TYPES)
+
+    def class_of(o):
+        cd = o.attrs.get('__classdef__')
+        return sym.classes.get((cd._module.name, cd._qualname)) if cd is not None else None
+
+    def b_type(o):
+        return o.attrs['__classdef__'] if isinstance(o, Obj) and '__classdef__' in o.attrs else type(o)
+
+    def b_isinstance(o, t):
+        ts = t if isinstance(t, tuple) else (t,)
+        if isinstance(o, Obj) and '__classdef__' in o.attrs:
+            mro = list(sym.mro(class_of(o)))
+            return any(getattr(x, '_fd_class', None) is not None and
+                       any(getattr(k, 'node', None) is x._fd_class for k in mro) for x in ts)
+        return any(isinstance(x, type) and isinstance(o, x) for x in ts)
+    exprs = ['TupleType([])', 'TupleType([IntType()])', 'TupleType([IntType(), StrType(False)])',
+             'TupleType([IntType(), StrType(False), FloatType()])', 'ListType(True)', 'ListType(False, IntType())',
+             'ListType(False, TupleType([]))', 'SetType(True)', 'DictType([])', 'DictType([(StrType(False), IntType())])',
+             'IntType()', 'FloatType()', 'StrType(False)', 'StrType(True)', 'BoolType()', 'NoneType()', 'NumType()']
+    n = 0
+    for expr in exprs:
+        for prop in ('singular_name', 'plural_name'):
+            f = ast.parse("def _expression():\n    return (%s).%s" % (expr, prop)).body[0]
+            f._module, f._qualname = tmod, '_expression'
+            fd = symexec.new_fd(sym, tmod, calls={'isinstance': b_isinstance, 'type': b_type}, max_steps=400000)
+            try:
+                got = fd.call_function(f, [])
+                raised = None
+            except Raised as e:
+                got, raised = None, e
+            except Inconclusive:
+                continue
+            n += 1
+            ctx.check(raised is None and isinstance(got, str), 'R7', 'type-name[%s.%s]' % (expr, prop), tmod,
+                      tmod.func('TupleType.singular_name') if tmod.has_func('TupleType.singular_name') else None,
+                      "%s of %s %s" % (prop, expr, 'raises %s (%s)' % (raised.kind, raised.detail) if raised is not None
+                                       else 'is %r' % (got,)),
+                      "left = 3; right = (); left + right - CPython raises TypeError, TIFA ends without an "
+                      "incompatible_types report")
+    ctx.floor('R7', 'type names decided', n, 20)
+
+
+def r8_variable_type_follows_assignment(ctx, sym):
+    ctx.rule('R8', "TIFA's store_variable / load_variable executed abstractly (the flow core of C09) on straight-line "
+                   "programs that assign one variable twice with different types: the type an operand read afterwards "
+                   "carries is the type of the last value assigned - also when that type is a subtype of what the "
+                   "variable held before (unknown, then str; number, then float; empty list, then list of str)")
+    from .c09 import AbstractTifa
+    at = AbstractTifa(ctx, sym)
+    for first, second in (('WIDE', 'NARROW'), ('NARROW', 'WIDE'), ('NARROW', 'NARROW'), ('WIDE', 'WIDE')):
+        prog = [('a', 'x', 1, first), ('a', 'x', 2, second), ('r', 'x', 3)]
+        try:
+            issues, raised = at.run(prog)
+        except Inconclusive as e:
+            raise AnalysisError("C19 R8: TIFA flow core outside the decidable fragment: %s" % e)
+        seen = list(getattr(at, 'types_read', []))
+        ok = raised is None and seen[-1:] == [second]
+        ctx.check(ok, 'R8', 'store_variable[%s then %s]' % (first, second), at.core, at.core_methods['store_variable'],
+                  "x assigned a value of type %s, then one of type %s (%s): an operand reading x afterwards is typed %r%s" % (
+                      first, second, 'a subtype of the first' if (first, second) == ('WIDE', 'NARROW') else
+                      'not a subtype of the first' if first != second else 'the same type', seen[-1:] or None,
+                      '' if raised is None else ' (raises %s)' % raised.kind),
+                  "data = json.loads(text); data = 'abc'; data + 1 - CPython raises TypeError, TIFA still types data as "
+                  "unknown and reports nothing")
+
+
 THOROUGH_REPS = {
     int: [0, 1, -2, 7, 3, -1, 12],
     float: [0.5, -8.0, 2.0, 1.5, -0.0, 3.0],
@@ -947,6 +1021,8 @@ def run(ctx):
     r4e_value_typing_executed(ctx, sym)
     r5_reflexive(ctx, sym)
     r6_lattice_executed(ctx, sym)
+    r7_type_names_total(ctx, sym)
+    r8_variable_type_follows_assignment(ctx, sym)
     ctx.assume("representative values per core type are a frozen list (REPS); CPython's operator module is the "
                "oracle and runs builtins only, never pedal")
     ctx.assume("expression trees deeper than one operator are covered through compositionality of the table only")
